@@ -564,12 +564,12 @@ func drawMinimize(t *simrt.Tape) *minInst {
 		if mask&16 != 0 {
 			s.Runtime = time.Duration(small(2000)) * time.Millisecond
 		}
-		if s.FuncEvaluations == 0 && (s.MajorIterations == 0 || (in.obj.bad != 0 && t.Choose(simrt.KWorkload, 16) != 15)) {
+		if s.FuncEvaluations == 0 && s.MajorIterations == 0 {
 			// Termination is owed by contract only with a hard stop that the
-			// method is sure to reach. A line search over a region where the
-			// objective is NaN never completes a MajorIteration (see DESIGN.md,
-			// known finding), so such objectives get an evaluation limit in
-			// all but a few runs.
+			// method is sure to reach. (Objectives with a NaN / Inf region
+			// used to get an evaluation limit in nearly all runs because a
+			// line search over such a region never ended - finding 9,
+			// repaired by efd89c9; they are now treated like all others.)
 			s.FuncEvaluations = small(60)
 		}
 		switch t.Choose(simrt.KWorkload, 4) {
